@@ -28,6 +28,12 @@ def impl_fn(F, adt, name):
 
 def run(F, rep, tier):
     rep.explanation = __doc__
+    va = F.adt(S + "VacantEntry")
+    if "dirty" not in [x["name"] for x in va["variants"][0]["fields"]]:
+        rep.violation("VacantEntry|dirty-flag", "K1 must-pass-through",
+                      "VacantEntry no longer records a successful insert in a `dirty` flag: Drop cannot tell a failed insert (file must be "
+                      "unlinked) from a successful one by state the insert path controls", None)
+        return
     ins = impl_fn(F, "VacantEntry", "insert")
     iw = [c for c in ins.calls if c.name == "into_writer"]
     fs = [c for c in ins.calls if c.is_(S + "Exclusive::fsync")]
